@@ -162,6 +162,22 @@ package list
 //@ func (*contentValidator).validateReadKeyChange
 //@   trusted
 //@   modifies nothing
+//@   requires wf(c)
+//@   assumes ch != nil ==> (forall k int :: 0 <= k && k < len(ch.AccountKeys) ==> ch.AccountKeys[k] != nil)
+//@   assumes ch != nil ==> (forall k int :: 0 <= k && k < len(ch.InviteKeys) ==> ch.InviteKeys[k] != nil)
+//@   assumes forall k string :: k in c.aclState.accountStates ==> c.aclState.accountStates[k].PubKey != nil
+//@   assumes forall k string :: k in c.aclState.invites ==> c.aclState.invites[k].Key != nil
+//@   loop 0:
+//@     invariant ch != nil && wf(c)
+//@   loop 1:
+//@     invariant ch != nil && wf(c)
+//@   loop 2:
+//@     invariant ch != nil && wf(c) && -1 <= rangeindex && rangeindex < len(ch.AccountKeys)
+//@     invariant forall k int :: 0 <= k && k < len(ch.AccountKeys) ==> ch.AccountKeys[k] != nil
+//@     invariant forall k int :: 0 <= k && k < len(ch.InviteKeys) ==> ch.InviteKeys[k] != nil
+//@   loop 3:
+//@     invariant ch != nil && wf(c) && -1 <= rangeindex && rangeindex < len(ch.InviteKeys)
+//@     invariant forall k int :: 0 <= k && k < len(ch.InviteKeys) ==> ch.InviteKeys[k] != nil
 
 // Removal: only managers; never oneself, an outsider or the owner; an Admin only by the owner;
 // no identity twice.
